@@ -147,8 +147,12 @@ stored entry up by the id in the message, hand it to the `Validate…` function,
 message's entry; the two owner endpoints run `msg.ValidateBasic`, copy the stored scope, edit
 the COPY's owner list (`AddOwners` / `RemoveOwners`), validate with the stored scope as
 `existing` and the copy as `proposed`, and store the copy (`msgAddScopeOwner`,
-`msgDeleteScopeOwner`); the data-access endpoints edit the stored scope AFTER validating it. -/
+`msgDeleteScopeOwner`); the data-access endpoints edit the stored scope AFTER validating it.
+The three write endpoints whose message may name its ids through OPTIONAL fields (`scope_uuid`,
+`session_id_components`, `spec_uuid`, `contract_spec_uuid`) convert them FIRST: the look-up that
+decides "new versus existing entry" sees the id the message means, however it is spelled. -/
 def expectedMsgServerCalls : List SignerCall := [
+  ⟨"WriteScope", "msg.ConvertOptionalFields", []⟩,
   ⟨"WriteScope", "ValidateWriteScope", ["msg"]⟩,
   ⟨"WriteScope", "SetScope", ["msg.Scope"]⟩,
   ⟨"DeleteScope", "ValidateDeleteScope", ["msg"]⟩,
@@ -173,10 +177,12 @@ def expectedMsgServerCalls : List SignerCall := [
   ⟨"DeleteScopeOwner", "proposed.RemoveOwners", ["msg.Owners"]⟩,
   ⟨"DeleteScopeOwner", "ValidateUpdateScopeOwners", ["existing", "proposed", "msg"]⟩,
   ⟨"DeleteScopeOwner", "SetScope", ["proposed"]⟩,
+  ⟨"WriteSession", "msg.ConvertOptionalFields", []⟩,
   ⟨"WriteSession", "GetSession", ["msg.Session.SessionId"]⟩,
   ⟨"WriteSession", "set:existing", ["&e"]⟩,
   ⟨"WriteSession", "ValidateWriteSession", ["existing", "msg"]⟩,
   ⟨"WriteSession", "SetSession", ["msg.Session"]⟩,
+  ⟨"WriteRecord", "msg.ConvertOptionalFields", []⟩,
   ⟨"WriteRecord", "GetRecord", ["recordID"]⟩,
   ⟨"WriteRecord", "set:existing", ["&e"]⟩,
   ⟨"WriteRecord", "ValidateWriteRecord", ["existing", "msg"]⟩,
@@ -199,6 +205,17 @@ theorem msg_server_edits_the_copy_before_validating :
     ∧ (Generated.SignerCalls.msgServerCalls.filter fun c => c.callee = "ValidateUpdateScopeOwners").map
         (fun c => (c.fn, c.args))
       = [("AddScopeOwner", ["existing", "proposed", "msg"]), ("DeleteScopeOwner", ["existing", "proposed", "msg"])] := by
+  decide
+
+/-- The optional id fields of a write message are converted before anything else the endpoint
+does with the message: the FIRST recorded call of WriteScope / WriteSession / WriteRecord is
+`msg.ConvertOptionalFields`, and no other endpoint (none of their messages has such fields) calls it. -/
+theorem msg_server_converts_optional_ids_first :
+    (["WriteScope", "WriteSession", "WriteRecord"].all fun ep =>
+        ((Generated.SignerCalls.msgServerCalls.filter fun c => c.fn = ep).head?.map (·.callee))
+          = some "msg.ConvertOptionalFields") = true
+    ∧ ((Generated.SignerCalls.msgServerCalls.filter fun c => c.callee = "msg.ConvertOptionalFields").map (·.fn))
+      = ["WriteScope", "WriteSession", "WriteRecord"] := by
   decide
 
 end PvProofs.C10
